@@ -85,6 +85,8 @@ theorem avcc_iterators_never_panic (d : List UInt8) (h : Avcc.tryFrom d = .ok ()
     (Avcc.spsList d).isPanic = false ∧ (Avcc.ppsList d).isPanic = false := Avcc.validated_noPanic d h
 theorem avcc_accessors_never_panic (d : List UInt8) (h : Avcc.tryFrom d = .ok ()) : ∃ f, Avcc.fields d = .ok f :=
   C09.accessors_never_panic d h
+theorem avcc_context_creation_never_panics (d : List UInt8) (h : Avcc.tryFrom d = .ok ()) :
+    ∀ err, Avcc.createContext d = .error err → err.isPanic = false := Avcc.createContext_noPanic d h
 /-- construction itself never panics, on any bytes: every index is preceded by its length check -/
 theorem avcc_construction_never_panics (d : List UInt8) : (Avcc.tryFrom d).isPanic = false := Avcc.tryFrom_noPanic d
 
